@@ -4,6 +4,7 @@ import re
 from core import (norm, L_call, L_variant, arms, assigns_to_return, closure_arg_of, sig, const_of, awaits, CallSite, AbsPaths, returned_comparison, L_opt, INT_CMP, VALUE_EQ)
 from mir import op_place
 import c11
+import seqmodel
 
 META = {
     "thorough_extra": ["client-only", "tls"],
@@ -248,7 +249,7 @@ def C16_4_5(ctx, facts):
             ok2 = any("local_address_ipv4" in r.desc for r in a0 if r.kind == "arg") and any("local_address_ipv6" in r.desc for r in a1 if r.kind == "arg")
         ctx.check(ok2, "connecting|preference-from-binding", "the preference is IpVersion::from_binding(local_address_ipv4, local_address_ipv6)", "preference roots %s" % sorted(map(repr, rr)), c.where())
     fbf = facts.unit(facts.fn("client::conn::dns::IpVersion::from_binding"), expand=True)
-    ap = AbsPaths(fbf)
+    ap = AbsPaths(fbf, raw_oracles=seqmodel.OPTION_ORACLES)
     some = ("variant", "Some", ((0, ("const", "LOCAL_ADDR")),))
     none = ("variant", "None", ())
     want = {(True, True): "V6", (True, False): "V4", (False, True): "V6", (False, False): None}
